@@ -46,6 +46,23 @@ Clauses(r) ==
                  THEN {} ELSE {"contest_max"})
                 \* without style information one sample serves every contest: the largest of the contests' estimates
                 \cup (IF r.style \/ r.out.total = (CHOOSE m \in all : \A x \in all : x <= m) THEN {} ELSE {"audit_max"})
+                \* beyond the listed properties: with style information every card gets a sampling probability (1 if already
+                \* sampled, else the largest over the contests it lists of  estimate / (cards not yet sampled)), and the
+                \* total is the sum over real cards, rounded up
+                \cup (IF ~r.style THEN {}
+                      ELSE LET nc == Len(r.out.p)
+                               old(k) == Cardinality({j \in 1..nc : r.sampled[j] /\ k \in ToSet(r.listing[j])})
+                               rate(k) == R(r.out.sizes[k], r.cards[k] - old(k))
+                               RECURSIVE MaxRate(_)
+                               MaxRate(S) == IF S = {} THEN Zero ELSE LET k == CHOOSE k \in S : TRUE IN RMax(rate(k), MaxRate(S \ {k}))
+                               P(j) == IF r.sampled[j] THEN One ELSE MaxRate(ToSet(r.listing[j]))
+                               RECURSIVE Sum(_)
+                               Sum(j) == IF j = 0 THEN Zero ELSE RAdd(Sum(j - 1), IF r.phantom[j] THEN Zero ELSE P(j))
+                               tot == Sum(nc)
+                           IN  (IF \A j \in 1..nc : r.out.p[j] # "unset" /\ RClose(RParse(r.out.p[j]), P(j), RParse("1/1000000000"), RParse("1/1000000000"))
+                                THEN {} ELSE {"ext:cvr_p"})
+                               \cup (IF RLe(tot, RNat(r.out.total)) /\ RLt(RSub(RNat(r.out.total), One), RAdd(tot, RParse("1/1000000")))
+                                     THEN {} ELSE {"ext:total"}))
       [] r.kind = "contest" ->
             LET want == CHOOSE m \in {r.cross[k] : k \in 1..Len(r.cross)} : \A k \in 1..Len(r.cross) : r.cross[k] <= m
             IN  IF r.out.result = want /\ r.out.attr = want THEN {} ELSE {"contest_max"}
